@@ -67,3 +67,4 @@ for f in ks.get('fixed', []):
         k['fixed'] = [x for x in k['fixed'] if not (('property=' + pid) in x and x.split()[2] == h)] + [f]
 json.dump(k, open(os.path.join(V, 'known_findings.json'), 'w'), indent=1)
 print('  findings of', pid, ':', [f['id'] for f in k['findings'] if f.get('property') == pid])
+import subprocess; subprocess.run(["python3", "/verif/scripts/add_arith.py"])
